@@ -1,6 +1,7 @@
 """C19 – CLI profile: set/get/new/get_fit_params histories against the Lean store model, legacy
 files, scripted interactive setup, batch-fit acceptance and the statistics file."""
 import builtins
+import copy
 import json
 import random
 import os
@@ -225,6 +226,45 @@ def fresh_read_oracle(ctx, ops, path):
                           f"profile[{k!r}] was set to {v!r} but a new Profile object reads {got!r}",
                           {"history": [list(map(str, o)) for o in ops], "expected": repr(v),
                            "observed": repr(got)})
+
+
+def two_objects_oracle(ctx, tdir, n):
+    """several live Profile objects on one file (the CLI entry points each create their own): every value
+    written through any of them is what a later read - through any of them or a new one - returns"""
+    from nanite.cli import profile
+    rng = random.Random(ctx.seed * 7919 + 5)
+    choices = {"segment": [0, 1], "weight_cp": [0, 2e-7, 5e-7, 1e-6], "range_type": ["absolute", "relative cp"],
+               "range_x": [[0, 0], [-1e-6, 2e-7], [-2e-6, 0]], "fit param E value": [50.0, 1234.5, 8e3],
+               "fit param E vary": [True, False], "model_key": ["hertz_para", "hertz_cone", "sneddon_spher_approx"]}
+    for i in range(n):
+        path = tdir / f"two{i}.cfg"
+        objs = [profile.Profile(path=path), profile.Profile(path=path)]
+        if rng.random() < 0.5:
+            objs.append(profile.Profile(path=path, create=False))
+        last, hist = {}, []
+        for _ in range(rng.randint(3, 7)):
+            j = rng.randrange(len(objs))
+            k = rng.choice(sorted(choices))
+            v = copy.deepcopy(rng.choice(choices[k]))
+            objs[j][k] = v
+            last[k] = v
+            hist.append([f"p{j}", k, repr(v)])
+        readers = [("new object", profile.Profile(path=path, create=False))] + \
+            [(f"p{j}", o) for j, o in enumerate(objs)]
+        bad = []
+        for who, o in readers:
+            data = o.load()
+            for k, v in last.items():
+                if data.get(k, "<missing>") != v:
+                    bad.append((who, k, v, data.get(k, "<missing>")))
+        ctx.case({"two-objects": hist}, nontrivial="two:" + json.dumps(hist), bucket=["stream=two-objects",
+                                                                                     f"objects={len(objs)}"])
+        if bad:
+            who, k, v, got = bad[0]
+            ctx.violation(f"write-lost-between-objects:{k}", f"{k!r} was set to {v!r} through one Profile object, but "
+                          f"{who} reads {got!r} after writes through another object on the same file "
+                          f"({len(bad)} such reads)", {"history": hist, "expected": repr(v), "observed": repr(got)})
+        path.unlink()
 
 
 def _isfloat(t):
@@ -703,6 +743,7 @@ def run(ctx):
         assert str(profile.PROFILE_PATH).startswith(str(tdir)), "profile path not redirected"
         models = ["hertz_para", "hertz_cone", "sneddon_spher_approx", "hertz_pyr3s"]
         nh = 150 if ctx.tier == "quick" else 3000
+        two_objects_oracle(ctx, tdir, 25 if ctx.tier == "quick" else 400)
         all_lines, all_expect, where = [], [], []
         for i in range(nh):
             ops = gen_history(ctx.rng, models)
